@@ -12,6 +12,7 @@ PROPERTY_MODULES.update({
     "C09": "contracts.C09_upper_limits",
     "C10": "contracts.C10_batching",
     "C12": "contracts.C12_config",
+    "C13": "contracts.C13_gradients",
     "C14": "contracts.C14_toys",
     "C17": "contracts.C17_patchset",
     "C19": "contracts.C19_cli",
